@@ -370,62 +370,258 @@ class Project:
         return None
 
     def instance_registry(self, ci, reg):
-        """Registry `reg` (e.g. '_bcdict') of an *instance* of ci, obtained by following the
-        chain of __init__ (copy in base.model.__init__, merge calls along the chain)."""
-        state = {}
-        self._sim_init(ci, ci, reg, state, 0)
-        return state
+        """Registry `reg` (e.g. '_bcdict') of an *instance* of ci, obtained by interpreting the
+        registry effects of the chain of __init__ in statement order: a copy of a class-level
+        registry stored on the instance (assignment or setattr), merge calls (directly, through
+        getattr by name, in loops over literal name tuples, in helper methods that receive the
+        class), base-class constructor calls (Base.__init__(self, ..) / super().__init__(..))."""
+        cache = self.__dict__.setdefault("_instreg_cache", {})
+        if ci.qualname not in cache:
+            state = {}
+            init = self.resolve(ci, "__init__")
+            if init is not None:
+                self._reg_func(ci, init, {init.params[0]: ("self",)}, state, 0)
+            cache[ci.qualname] = state
+        return dict(cache[ci.qualname].get(reg, {}))
 
-    def _sim_init(self, concrete, ci, reg, state, depth):
-        if depth > 8:
+    def _reg_names(self):
+        names = self.__dict__.get("_all_reg_names")
+        if names is None:
+            names = set()
+            for m in self.modules.values():
+                for c in m.classes.values():
+                    names |= set(c.registries)
+            self.__dict__["_all_reg_names"] = names
+        return names
+
+    def _reg_relevant(self, node, _seen=None):
+        """may this statement / function touch a registry of the instance (directly or through a
+        method it calls)?"""
+        regs = self._reg_names()
+        seen = _seen if _seen is not None else set()
+        for n in ast.walk(node):
+            if isinstance(n, ast.Call) and isinstance(n.func, ast.Attribute):
+                for m in self.modules.values():
+                    for c in m.classes.values():
+                        g = c.methods.get(n.func.attr)
+                        if g is not None and id(g) not in seen:
+                            seen.add(id(g))
+                            if self._reg_relevant(g.node, seen):
+                                return True
+            if isinstance(n, ast.Attribute) and (n.attr in regs or n.attr in ("__init__", "merge", "__dict__")):
+                return True
+            if isinstance(n, ast.Name) and n.id in ("setattr", "getattr", "vars", "super"):
+                return True
+            if isinstance(n, ast.Constant) and n.value in regs:
+                return True
+        return False
+
+    def _reg_value(self, expr, env, func):
+        """('self',) | ('class', ClassInfo) | ('str', s) | ('tuple', [..]) | ('reg', owner value, name) | None"""
+        mod = func.module
+        if isinstance(expr, ast.Name):
+            if expr.id in env:
+                return env[expr.id]
+            c = self.resolve_class_expr(expr, mod)
+            return ("class", c) if c is not None else None
+        if isinstance(expr, ast.Constant) and isinstance(expr.value, str):
+            return ("str", expr.value)
+        if isinstance(expr, (ast.Tuple, ast.List)):
+            vals = [self._reg_value(e, env, func) for e in expr.elts]
+            return ("tuple", vals) if all(v is not None for v in vals) else None
+        if isinstance(expr, ast.Attribute):
+            if expr.attr == "__class__":
+                o = self._reg_value(expr.value, env, func)
+                return ("dynclass",) if o == ("self",) else None
+            o = self._reg_value(expr.value, env, func)
+            if o is None:
+                c = self.resolve_class_expr(expr, mod)
+                return ("class", c) if c is not None else None
+            return self._reg_attr(o, expr.attr, func)
+        if isinstance(expr, ast.Call):
+            f = expr.func
+            if isinstance(f, ast.Name) and f.id == "getattr" and len(expr.args) >= 2:
+                o = self._reg_value(expr.args[0], env, func)
+                n = self._reg_value(expr.args[1], env, func)
+                if o is not None and n is not None and n[0] == "str":
+                    return self._reg_attr(o, n[1], func)
+                return None
+            if isinstance(f, ast.Name) and f.id == "type" and len(expr.args) == 1 and self._reg_value(expr.args[0], env, func) == ("self",):
+                return ("dynclass",)
+            if isinstance(f, ast.Attribute) and f.attr == "copy" and not expr.args:
+                o = self._reg_value(f.value, env, func)
+                if o is not None and o[0] == "reg":
+                    return ("regcopy", o)
+            return None
+        return None
+
+    def _reg_attr(self, o, a, func):
+        if o[0] in ("self", "class") and a in self._reg_names():
+            return ("reg", o, a)
+        if o[0] == "class":
+            c, expr = self.class_attr(o[1], a)
+            if expr is not None:
+                try:
+                    v = ast.literal_eval(expr)
+                except (ValueError, SyntaxError):
+                    return None
+                if isinstance(v, str):
+                    return ("str", v)
+                if isinstance(v, (tuple, list)) and all(isinstance(x, str) for x in v):
+                    return ("tuple", [("str", x) for x in v])
+        if o[0] == "self":
+            c, expr = self.class_attr(func.cls, a) if func.cls is not None else (None, None)
+            if expr is not None:
+                return self._reg_attr(("class", func.cls), a, func)
+        return None
+
+    def _reg_entries(self, concrete, r, state, func):
+        """entries denoted by a ('reg', owner, name) value"""
+        _, o, name = r
+        if o[0] == "self":
+            if name not in state:
+                # never copied onto the instance: the class-level registry seen through the instance
+                owner = self._registry_owner(concrete, name)
+                return dict(owner.registries[name]["entries"]) if owner is not None else {}
+            return state[name]
+        if o[0] == "class":
+            owner = self._registry_owner(o[1], name)
+            return dict(owner.registries[name]["entries"]) if owner is not None else {}
+        raise AnalysisError("%s: registry of the dynamic class (type(self)) used in a constructor: intermediate classes would be skipped" % func.qualname)
+
+    def _reg_func(self, concrete, func, env, state, depth):
+        if depth > 10:
             raise AnalysisError("__init__ chain too deep for %s" % concrete.qualname)
-        init = self.resolve(ci, "__init__")
-        if init is None:
-            return
-        mod = init.module
-        for st in ast.walk(init.node):
-            pass
-        for st in init.node.body:
-            self._sim_init_stmt(concrete, init, st, reg, state, depth)
+        self._reg_block(concrete, func, func.node.body, env, state, depth, False)
 
-    def _sim_init_stmt(self, concrete, init, st, reg, state, depth):
-        mod = init.module
+    def _reg_block(self, concrete, func, stmts, env, state, depth, conditional):
+        for st in stmts:
+            if not self._reg_relevant(st):
+                continue
+            if isinstance(st, ast.For):
+                it = self._reg_value(st.iter, env, func)
+                if it is not None and it[0] == "tuple" and isinstance(st.target, ast.Name):
+                    for v in it[1]:
+                        env2 = dict(env)
+                        env2[st.target.id] = v
+                        self._reg_block(concrete, func, st.body, env2, state, depth, conditional)
+                    continue
+                self._reg_block(concrete, func, st.body, env, state, depth, True)
+                continue
+            if isinstance(st, (ast.If, ast.While)):
+                self._reg_block(concrete, func, st.body, env, state, depth, True)
+                self._reg_block(concrete, func, st.orelse, env, state, depth, True)
+                continue
+            if isinstance(st, (ast.With, ast.Try)):
+                for blk in (st.body, getattr(st, "orelse", []), getattr(st, "finalbody", [])):
+                    self._reg_block(concrete, func, blk, env, state, depth, conditional)
+                continue
+            self._reg_stmt(concrete, func, st, env, state, depth, conditional)
+
+    def _reg_effect(self, func, st, conditional):
+        if conditional:
+            raise AnalysisError("%s:%d registry changed under a condition / in a loop the analysis cannot unroll" % (func.qualname, st.lineno))
+
+    def _reg_stmt(self, concrete, func, st, env, state, depth, conditional):
+        mod = func.module
+        regs = self._reg_names()
+        if isinstance(st, ast.Assign):
+            v = self._reg_value(st.value, env, func)
+            for t in st.targets:
+                if isinstance(t, ast.Name):
+                    if v is not None:
+                        env[t.id] = v
+                    else:
+                        env.pop(t.id, None)
+                    continue
+                if isinstance(t, ast.Attribute) and self._reg_value(t.value, env, func) == ("self",) and t.attr in regs:
+                    self._reg_effect(func, st, conditional)
+                    self._reg_store(concrete, t.attr, v, state, func, st)
+                    continue
+                if isinstance(t, ast.Subscript):
+                    o = self._reg_value(t.value, env, func)
+                    if o is not None and o[0] == "reg" or (isinstance(t.value, ast.Attribute) and t.value.attr == "dict" and (self._reg_value(t.value.value, env, func) or (None,))[0] == "reg"):
+                        raise AnalysisError("%s:%d registry entry stored directly" % (func.qualname, st.lineno))
+            return
         if isinstance(st, ast.Expr) and isinstance(st.value, ast.Call):
             call = st.value
             f = call.func
+            # base-class constructor
             if isinstance(f, ast.Attribute) and f.attr == "__init__":
-                base = self.resolve_class_expr(f.value, mod)
-                if base is not None:
-                    self._sim_init(concrete, base, reg, state, depth + 1)
-                return
-            if (isinstance(f, ast.Attribute) and f.attr in ("merge",)
-                    and isinstance(f.value, ast.Attribute) and isinstance(f.value.value, ast.Name)
-                    and f.value.value.id == "self" and f.value.attr == reg and call.args):
-                src = call.args[0]
-                if isinstance(src, ast.Attribute):
-                    c = self.resolve_class_expr(src.value, mod)
-                    if c is not None:
-                        owner = self._registry_owner(c, src.attr)
-                        if owner is not None:
-                            state.update(owner.registries[src.attr]["entries"])
-                            return
-                raise AnalysisError("%s: unsupported registry merge" % init.qualname)
-        elif isinstance(st, ast.Assign) and len(st.targets) == 1:
-            t = st.targets[0]
-            if (isinstance(t, ast.Attribute) and isinstance(t.value, ast.Name) and t.value.id == "self"
-                    and t.attr == reg):
-                v = st.value
-                # self._bcdict = model._bcdict.copy()
-                if (isinstance(v, ast.Call) and isinstance(v.func, ast.Attribute) and v.func.attr == "copy"
-                        and isinstance(v.func.value, ast.Attribute)):
-                    c = self.resolve_class_expr(v.func.value.value, mod)
-                    if c is not None:
-                        owner = self._registry_owner(c, v.func.value.attr)
-                        state.clear()
-                        if owner is not None:
-                            state.update(owner.registries[v.func.value.attr]["entries"])
+                base = None
+                if isinstance(f.value, ast.Call) and isinstance(f.value.func, ast.Name) and f.value.func.id == "super":
+                    if f.value.args:
+                        c0 = self.resolve_class_expr(f.value.args[0], mod)
+                    else:
+                        c0 = func.cls
+                    m = self.mro(c0) if c0 is not None else []
+                    base = next((c for c in m[1:] if "__init__" in c.methods), None)
+                    if base is None:
                         return
-                raise AnalysisError("%s: unsupported registry assignment" % init.qualname)
+                else:
+                    base = self.resolve_class_expr(f.value, mod)
+                if base is not None:
+                    self._reg_effect(func, st, conditional)
+                    init = self.resolve(base, "__init__")
+                    if init is not None:
+                        self._reg_func(concrete, init, {init.params[0]: ("self",)}, state, depth + 1)
+                return
+            if isinstance(f, ast.Name) and f.id == "setattr" and len(call.args) == 3:
+                o = self._reg_value(call.args[0], env, func)
+                n = self._reg_value(call.args[1], env, func)
+                if o == ("self",):
+                    if n is None or n[0] != "str":
+                        raise AnalysisError("%s:%d setattr(self, <unknown name>, ...) in a constructor" % (func.qualname, st.lineno))
+                    if n[1] in regs:
+                        self._reg_effect(func, st, conditional)
+                        self._reg_store(concrete, n[1], self._reg_value(call.args[2], env, func), state, func, st)
+                return
+            if isinstance(f, ast.Attribute) and f.attr == "merge" and len(call.args) == 1:
+                tgt = self._reg_value(f.value, env, func)
+                if tgt is not None and tgt[0] == "reg":
+                    if tgt[1] != ("self",):
+                        raise AnalysisError("%s:%d a class-level registry is changed by a constructor" % (func.qualname, st.lineno))
+                    src = self._reg_value(call.args[0], env, func)
+                    if src is None or src[0] != "reg":
+                        raise AnalysisError("%s:%d unsupported registry merge" % (func.qualname, st.lineno))
+                    self._reg_effect(func, st, conditional)
+                    cur = state.get(tgt[2])
+                    if cur is None:
+                        raise AnalysisError("%s:%d merge into the class-level registry %s (the instance has no copy yet)" % (func.qualname, st.lineno, tgt[2]))
+                    cur.update(self._reg_entries(concrete, src, state, func))
+                    return
+                if tgt is None and isinstance(f.value, ast.Call):
+                    raise AnalysisError("%s:%d unsupported registry merge" % (func.qualname, st.lineno))
+                return
+            if isinstance(f, ast.Attribute) and f.attr in ("update", "pop", "clear", "popitem", "setdefault", "register"):
+                tgt = self._reg_value(f.value, env, func)
+                inner = self._reg_value(f.value.value, env, func) if isinstance(f.value, ast.Attribute) and f.value.attr == "dict" else None
+                if (tgt is not None and tgt[0] == "reg") or (inner is not None and inner[0] == "reg"):
+                    raise AnalysisError("%s:%d registry changed by .%s() in a constructor" % (func.qualname, st.lineno, f.attr))
+                return
+            # helper method of the instance
+            if isinstance(f, ast.Attribute) and self._reg_value(f.value, env, func) == ("self",):
+                g = self.resolve(concrete, f.attr)
+                if g is not None and self._reg_relevant(g.node):
+                    self._reg_effect(func, st, conditional)
+                    params = g.params if g.is_static else g.params[1:]
+                    env2 = {} if g.is_static else {g.params[0]: ("self",)}
+                    for n, a in zip(params, call.args):
+                        v = self._reg_value(a, env, func)
+                        if v is not None:
+                            env2[n] = v
+                    for k in call.keywords:
+                        v = self._reg_value(k.value, env, func) if k.arg else None
+                        if v is not None:
+                            env2[k.arg] = v
+                    self._reg_func(concrete, g, env2, state, depth + 1)
+                return
+
+    def _reg_store(self, concrete, name, v, state, func, st):
+        if v is not None and v[0] == "regcopy":
+            state[name] = dict(self._reg_entries(concrete, v[1], state, func))
+            return
+        raise AnalysisError("%s:%d unsupported registry assignment" % (func.qualname, st.lineno))
 
     def _registry_owner(self, ci, reg):
         for c in self.mro(ci):
